@@ -239,6 +239,13 @@ def run(check, repo, tier):
     remap = _Remap(check, {"R1": "R6", "R3": "R6", "R4": "R6"})
     remap.floor = lambda cond, message: check.floor(cond, message.replace("C18.", "C16<-C18."))
     n += c18.must_parse(remap, P) + c18.dispatch_rule(remap, P)
+    # the sender thread's device write must not fail on the statement's own text (it would end the thread and every
+    # later write() would wait for ever): the framing rule of C15 runs printcore._send on an arbitrary command
+    check.rule("R7", "printcore._send writes every statement to the device: one device write on every path, no exception from encoding the statement's text (rule R1 of C15)")
+    from . import c15
+    rm7 = _Remap(check, {"R1": "R7"})
+    rm7.floor = lambda cond, message: check.floor(cond, message.replace("C15.", "C16<-C15."))
+    n += c15.framing(rm7, P)
     check.analysed = {"program": P.stats(), "abstract_paths": n, "entries": ["PrintrunWriter.write", "_on_device_message", "_on_printrun_error", "disconnect", "SerialWriter.write", "SocketWriter.write"]}
     check.sample({"entry": "PrintrunWriter.write", "order_required": ["_ack_event.clear", "device.send", "_ack_event.wait", "_device_error check"]})
     check.coverage["exhaustive"] = True
